@@ -4,9 +4,12 @@
 
 package retry
 
+// min_uncertain: the least revision of a write whose outcome is still unknown (0: none)
+//@ ghost min_uncertain (_ BitVec 64)
 //@ func AsyncFifoRetry.MinRevision() (result)
 //@   assumed
 //@   pure
+//@   ensures [least-unresolved] result == min_uncertain
 
 //@ func AsyncFifoRetry.Append(event)
 //@   assumed
